@@ -434,7 +434,7 @@ func (srv *Session) handleBind(ctx context.Context, reader *buffer.Reader, write
 	}
 
 	if stmt == nil {
-		return NewErrUnkownStatement(statement)
+		return ErrorCode(writer, NewErrUnkownStatement(statement))
 	}
 
 	err = srv.Portals.Bind(ctx, name, stmt, parameters, formats)
